@@ -2998,6 +2998,12 @@ PPL::Grid::wrap_assign(const Variables_Set& vars,
       const Variable x(*i);
       // Find the frequency and a value for `x' in `gr'.
       if (!gr.frequency_no_check(x, f_n, f_d, v_n, v_d)) {
+        // `x' is not confined to a discrete set of values: some line of
+        // `gr' moves it.  If overflow wraps, the relations between `x'
+        // and the other dimensions only hold modulo `wrap_frequency'.
+        if (o == OVERFLOW_WRAPS) {
+          add_grid_generator(parameter(wrap_frequency * x));
+        }
         continue;
       }
       if (f_n == 0) {
